@@ -100,7 +100,7 @@ fn load_bcf(path: &Path) -> Result<CallSet, String> {
             .map(|g| match g {
                 None => Gt::diploid(None, None, false),
                 Some(g) => Gt {
-                    alleles: g.iter().map(|a| a.position().map(|p| p as u8)).collect(),
+                    alleles: g.iter().map(|a| a.position().map(|p| p as u64)).collect(),
                     phased: g.iter().skip(1).map(|a| matches!(a.phasing(), vcf::record::genotypes::sample::value::genotype::allele::Phasing::Phased)).collect(),
                 },
             })
